@@ -414,7 +414,20 @@ func c05Arith(r *run.Run) {
 			p := (&t2prog{}).nums(0, 0).op(oRmoveto)
 			name := ""
 			var lsubrs, gsubrs [][]byte
-			switch k := c.Choose(5, "family"); k {
+			switch k := c.Choose(6, "family"); k {
+			case 5:
+				// results at the ends of the 16.16 range (-32768 is representable, +32768 is not), brought back
+				// into the coordinate range before they are used
+				type bcase struct {
+					a, b float64
+					op   int
+					back float64
+				}
+				cases := []bcase{{-256, 128, 1224, 32767}, {128, -256, 1224, 32767}, {-32768, 1, 1224, 32767}, {1, -32768, 1224, 32767}, {255.5, 128, 1224, -32700}, {-181, 181, 1224, 32760},
+					{-32768, 0, 1210, 32767}, {-32767, -1, 1210, 32767}, {32767, 0.5, 1210, -32760}, {-32767, 1, 1211, 32767}, {-32768, 1, 1212, 32767}, {-32768, -2, 1212, -16380}, {32767.5, 0.25, 1211, -32760}}
+				bc := cases[c.Choose(len(cases), "boundary case")]
+				name = t2names[bc.op] + " at the end of the number range"
+				p.nums(bc.a, bc.b).op(bc.op).num(bc.back).op(1210).num(9).op(oRlineto)
 			case 0:
 				o := unary[c.Choose(len(unary), "unary operator")]
 				a := vals[c.Choose(len(vals), "a")]
@@ -707,9 +720,9 @@ func c05Faults(r *run.Run) {
 		return ps
 	}()
 	r.Explore(explore.Config{Name: "C05.faults"},
-		"single faults in 4 well-formed base programs: truncation at every byte, every byte deleted, every operator byte replaced by each other operator, 49 operands, stack underflow for every operator on an empty stack, drawing before the first moveto: the library must reject whatever the specification rejects, and agree on whatever it accepts",
+		"single faults in 4 well-formed base programs: truncation at every byte, every byte deleted, every operator byte replaced by each other operator, 49 operands, stack underflow for every operator on an empty stack, every drawing operator in every operand-count form before the first moveto: the library must reject whatever the specification rejects, and agree on whatever it accepts",
 		func(c *explore.Ctx) {
-			switch c.Choose(4, "fault family") {
+			switch c.Choose(5, "fault family") {
 			case 0:
 				p := base[c.Choose(len(base), "program")]
 				k := c.Choose(len(p.code)+1, "truncate at")
@@ -738,6 +751,30 @@ func c05Faults(r *run.Run) {
 				p.op(oEndchar)
 				c.Sample(func() any { return p.desc })
 				t2Compare(c, "operator with 0..3 operands", t2Case{code: p.code, lsubrs: [][]byte{{11}}, gsubrs: [][]byte{{11}}}, p.desc)
+			case 4:
+				// drawing before the first moveto: every drawing operator in every legal operand-count form
+				// as the first path operator (optionally behind a stem hint that has cleared the stack)
+				var draw []struct{ op, n int }
+				for _, f := range t2PathForms {
+					if f.op == oRmoveto || f.op == oHmoveto || f.op == oVmoveto {
+						continue
+					}
+					for _, n := range f.forms {
+						draw = append(draw, struct{ op, n int }{f.op, n})
+					}
+				}
+				d := draw[c.Choose(len(draw), "drawing operator and form")]
+				p := &t2prog{}
+				if c.Bool("stem hint first") {
+					p.nums(10, 20).op(oHstem)
+				}
+				p.nums(valsFrom(d.n, 2)...).op(d.op)
+				if c.Bool("moveto afterwards") {
+					p.nums(1, 1).op(oRmoveto).nums(2, 2).op(oRlineto)
+				}
+				p.op(oEndchar)
+				c.Sample(func() any { return p.desc })
+				t2Compare(c, "drawing before the first moveto", t2Case{code: p.code}, p.desc)
 			case 3:
 				n := explore.Pick(c, "operands", 47, 48, 49, 50)
 				p := (&t2prog{}).nums(1, 1).op(oRmoveto)
